@@ -695,6 +695,8 @@ def gen_x(rng, n, want_int):
 
 def gen_case(rng, tier, shard, nshards):
     n = int(rng.integers(1, 5)) if rng.random() < 0.15 else int(rng.integers(1, 201))
+    if rng.random() < 0.004:
+        n = int(rng.integers(3000, 20000))        # long vectors: blocked / pairwise / parallel code paths only show there
     cls = pick(rng, CLASSES)
     mag = 10.0 ** rng.uniform(-3, 6)
     want_int = cls in ('int', 'int-near')
